@@ -251,6 +251,12 @@ def expr_text(e, rnd=None):
     return ge.join_tokens(toks, rnd)
 
 
+def is_async(func_stmt):
+    """Some function definitions carry the `async` keyword (it changes nothing in this implementation): decided by the shape of the definition, so
+    that printing is a function of the tree."""
+    return (len(func_stmt[1]) + 2 * len(func_stmt[2]) + len(func_stmt[4])) % 4 == 0
+
+
 def print_program(stmts, indent=0, out=None, rnd=None):
     """Returns the list of source lines."""
     if out is None:
@@ -283,7 +289,7 @@ def print_program(stmts, indent=0, out=None, rnd=None):
         elif k == 'return':
             out.append(sp + 'return' + (' ' + expr_text(s[1], rnd) if s[1] is not None else ''))
         elif k == 'func':
-            out.append('%sfunction %s(%s%s):' % (sp, s[1], ', '.join(s[2]), '...' if s[3] else ''))
+            out.append('%s%sfunction %s(%s%s):' % (sp, 'async ' if is_async(s) else '', s[1], ', '.join(s[2]), '...' if s[3] else ''))
             print_program(s[4], indent + 1, out, rnd)
             out.append(sp + 'endfunction')
         else:
@@ -407,7 +413,7 @@ def program_token_lines(stmts, depth=0, out=None):
             else:
                 out.append(_line(ind, 'return', 'REQ', _expr_tokens(s[1])))
         elif k == 'func':
-            parts = ['function', 'REQ', s[1], '(']
+            parts = (['async', 'REQ'] if is_async(s) else []) + ['function', 'REQ', s[1], '(']
             for i, p in enumerate(s[2]):
                 if i:
                     parts.append(',')
